@@ -57,15 +57,19 @@ def _(u):
 CVG = "rl4co/envs/routing/cvrp/generator.py"
 
 
-def _sampler(u, name, lo, hi, dtype="f"):
-    """A sampler stub (assumed contract A10): sample(shape) returns an arbitrary tensor with entries in [lo, hi]."""
+def _sampler(u, name, lo, hi, dtype="f", replay=None):
+    """A sampler stub (assumed contract A10): sample(shape) returns an arbitrary tensor with entries in [lo, hi].
+    replay=<another stub>: return (value copies of) that stub's draws again, for two runs on the same randomness."""
     cnt = [0]
     drawn = []
 
     def sample(shape):
         cnt[0] += 1
+        if replay is not None:
+            t0 = replay.drawn[cnt[0] - 1]
+            return SymTensor(t0.shape, t0.dtype, t0.snap(), name=t0.name)
         t = u.tensor(f"{name}{cnt[0]}", tuple(shape), dtype)
-        drawn.append(t)
+        drawn.append(SymTensor(t.shape, t.dtype, t.snap(), name=t.name))
         ts = t.snap()
         ops.assume_forall(tuple(shape), lambda I: z3.And(ts(I) >= lo, ts(I) <= hi))
         return t
@@ -123,3 +127,105 @@ def _(u):
         g = u.obj(CVG, "CVRPGenerator")
         u.run(CVG, "CVRPGenerator.__init__", n, selfobj=g, record=False, **kw)
         u.prove(f"init.num_loc{n}.default-capacity-from-table", g._attrs["capacity"] == want and table.get(n, want) == want, note=f"got {g._attrs['capacity']!r}")
+
+
+TWG = "rl4co/envs/routing/cvrptw/generator.py"
+
+
+def _unscale(v, M):
+    """v * M for a value the code computed as x / M (M > 0): x itself (structurally), so that the clauses stay linear."""
+    if z3.is_app_of(v, z3.Z3_OP_DIV) and v.arg(1).eq(M):
+        return v.arg(0)
+    return v * M
+
+
+def _cvrptw_generate(u, scale, max_time=None):
+    """CVRPTWGenerator._generate (steps 1-8 incl. the window repair), for EVERY draw of the samplers / torch.rand."""
+    B, N = u.dims("B N")
+    cap = u.scalar("capacity", "f")
+    dmin, dmax = u.scalar("min_demand", "i"), u.scalar("max_demand", "i")
+    lmin, lmax = u.scalar("min_loc", "f"), u.scalar("max_loc", "f")
+    # scale=False: any max_time. scale=True divides everything by max_time; to keep the obligations linear that variant is proved
+    # for concrete horizons (the default 480 and a second one), every other parameter staying symbolic
+    M = u.scalar("max_time", "f") if max_time is None else zreal(max_time)
+    u.requires(AND(dmin >= 1, dmin <= dmax, lmin <= lmax, cap > 0, M > 0))
+    gen = u.obj(TWG, "CVRPTWGenerator", num_loc=N, capacity=cap, min_demand=dmin, max_demand=dmax, max_time=M if max_time is None else max_time, min_time=0.0, scale=scale, min_loc=lmin, max_loc=lmax,
+                loc_sampler=_sampler(u, "loc", lmin, lmax), depot_sampler=_sampler(u, "depot", lmin, lmax),
+                demand_sampler=_sampler(u, "dem", z3.ToReal(dmin - 1), z3.ToReal(dmax - 1)))
+    u.inline((CVG, "CVRPGenerator._generate"))
+    td = u.run(TWG, "CVRPTWGenerator._generate", [B], selfobj=gen, record=False, asserts="record")
+    b, i = u.idx((B,), "b"), u.idx((N,), "i")
+    tw, dur = td["time_windows"], td["durations"]
+    un = (lambda v: _unscale(v, M)) if scale else (lambda v: v)     # with scale=True everything is expressed in units of max_time
+    same_tensor(u, "tw.shape", tw, (B, N + 1, 2), lambda *I: tw.at(*I))
+    same_tensor(u, "durations.shape", dur, (B, N + 1), lambda *I: dur.at(*I))
+    j = u.idx((N + 1,), "j")
+    u.prove("durations-zero", dur.at(b, j) == 0)
+    u.prove("tw.depot", AND(tw.at(b, 0, 0) == 0, un(tw.at(b, 0, 1)) == z3.ToInt(M)))
+    if scale:
+        u.prove("scaled.windows-are-the-unscaled-ones-over-max_time",
+                AND(un(tw.at(b, j, 0)) / M == tw.at(b, j, 0), un(tw.at(b, j, 1)) / M == tw.at(b, j, 1)))
+    # the generator's own final assert (an instance violating it is never emitted), used at (b, j) and at customer i
+    u.asserted("Please make sure", b, j)
+    u.asserted("Please make sure", b, i + 1)
+    u.prove("tw.ordered", tw.at(b, j, 0) < tw.at(b, j, 1))
+    real = lambda v: z3.ToReal(v) if v.sort() == z3.IntSort() else v     # (unscaled windows are integer tensors)
+    lo, hi = real(un(tw.at(b, i + 1, 0))), real(un(tw.at(b, i + 1, 1)))
+    # distance depot -> customer in the UNSCALED coordinates the windows were built from
+    dep, loc = gen._attrs["depot_sampler"].drawn[0], gen._attrs["loc_sampler"].drawn[0]
+    d = ops.NORM2(dep.at(b, 0) - loc.at(b, i, 0), dep.at(b, 1) - loc.at(b, i, 1))
+    feas = 2 * d <= M                                                # a round trip fits at all
+    u.prove("tw.customer-ordered", lo < hi, assume=True)
+    # (non-linear step made explicit: a draw in [0, 1) times the non-negative slack max_time - 2 d stays inside [0, slack])
+    rands = [fn for name, (fn, shp, dt) in u.ctx.inputs.items() if "rand" in name and len(shp) == 2]
+    for n_, r in enumerate(rands):
+        x = r(b, i + 1)
+        u.prove(f"lemma.draw{n_ + 1}-in-range", AND(x >= 0, x < 1), assume=True)
+        u.prove(f"lemma.slack-times-draw{n_ + 1}-in-range", IMPL(feas, AND((M - 2 * d) * x >= 0, (M - 2 * d) * x <= M - 2 * d)), assume=True, algebra_only=True)
+    u.prove("tw.integer-valued", AND(z3.ToReal(z3.ToInt(lo)) == lo, z3.ToReal(z3.ToInt(hi)) == hi), assume=True)
+    u.prove("tw.opens-not-before-depot-distance-floor", IMPL(feas, lo >= z3.ToReal(z3.ToInt(d))), assume=True)
+    u.prove("tw.leaves-time-to-return", IMPL(feas, hi + d <= M))
+    # integers lo < hi with lo >= floor(d): hi >= floor(d) + 1 > d
+    u.prove("tw.reachable-before-close", IMPL(feas, d < hi), algebra_only=True)
+    u.canary("tw.leaves-time-to-return-even-if-infeasible", hi + d <= M)
+    if scale:
+        c = u.idx((2,), "c")
+        u.prove("scaled.coordinates", AND(td["locs"].at(b, i, c) * M == loc.at(b, i, c), td["depot"].at(b, c) * M == dep.at(b, c)))
+
+
+@unit("cvrptw.generator.generate", file=TWG, func="CVRPTWGenerator._generate", props=("C18",))
+def _(u):
+    _cvrptw_generate(u, False)
+
+
+@unit("cvrptw.generator.generate.scaled", file=TWG, func="CVRPTWGenerator._generate", props=("C18",))
+def _(u):
+    # scale=True, ANY max_time, relationally: on the same draws the scaled generator emits exactly the unscaled instance with
+    # windows, durations and coordinates divided by max_time (so every clause of the unit above carries over in units of
+    # max_time); demands and capacity are untouched
+    from tvc import methods
+
+    B, N = u.dims("B N")
+    cap = u.scalar("capacity", "f")
+    dmin, dmax = u.scalar("min_demand", "i"), u.scalar("max_demand", "i")
+    lmin, lmax = u.scalar("min_loc", "f"), u.scalar("max_loc", "f")
+    M = u.scalar("max_time", "f")
+    u.requires(AND(dmin >= 1, dmin <= dmax, lmin <= lmax, cap > 0, M > 0))
+    S = dict(loc_sampler=_sampler(u, "loc", lmin, lmax), depot_sampler=_sampler(u, "depot", lmin, lmax),
+             demand_sampler=_sampler(u, "dem", z3.ToReal(dmin - 1), z3.ToReal(dmax - 1)))
+    kw = dict(num_loc=N, capacity=cap, min_demand=dmin, max_demand=dmax, max_time=M, min_time=0.0, min_loc=lmin, max_loc=lmax)
+    g1 = u.obj(TWG, "CVRPTWGenerator", scale=False, **kw, **S)
+    g2 = u.obj(TWG, "CVRPTWGenerator", scale=True, **kw, **{k_: _sampler(u, k_, None, None, replay=v) for k_, v in S.items()})
+    u.inline((CVG, "CVRPGenerator._generate"))
+    r0 = methods._RAND[0]
+    td1 = u.run(TWG, "CVRPTWGenerator._generate", [B], selfobj=g1, record=False, asserts="record")
+    methods._RAND[0] = r0                                            # torch.rand returns the same draws in the second run
+    td2 = u.run(TWG, "CVRPTWGenerator._generate", [B], selfobj=g2, record=False, asserts="record")
+    b, i, j, c = u.idx((B,), "b"), u.idx((N,), "i"), u.idx((N + 1,), "j"), u.idx((2,), "c")
+    same_tensor(u, "scaled.tw.shape", td2["time_windows"], (B, N + 1, 2), lambda *I: td2["time_windows"].at(*I))
+    u.prove("scaled.windows", td2["time_windows"].at(b, j, c) == z3.ToReal(td1["time_windows"].at(b, j, c)) / M)
+    u.prove("scaled.durations", td2["durations"].at(b, j) == td1["durations"].at(b, j) / M)
+    u.prove("scaled.coordinates", AND(td2["locs"].at(b, i, c) == td1["locs"].at(b, i, c) / M, td2["depot"].at(b, c) == td1["depot"].at(b, c) / M))
+    u.prove("scaled.demand-untouched", AND(td2["demand"].at(b, i) == td1["demand"].at(b, i), td2["capacity"].at(b, 0) == td1["capacity"].at(b, 0)))
+    u.prove("scaled.windows-are-floats", td2["time_windows"].dtype == "f")
+    u.canary("scaled.windows-unchanged", td2["time_windows"].at(b, j, c) == z3.ToReal(td1["time_windows"].at(b, j, c)))
